@@ -131,7 +131,8 @@ template<typename T, size_t N> void writeMA(nix::DataSet *t, const nix::NDSize &
     for (size_t i = 0; i < N; i++) ext[i] = (size_t) shape[i];
     boost::multi_array<T, N> ma(ext);
     for (size_t i = 0; i < ma.num_elements(); i++) ma.data()[i] = Conv<T>::from(vals[i]);
-    t->setData(ma);
+    // setData(container) also sets the extent, which a view refuses by design: a view gets the form with an offset
+    if (dynamic_cast<nix::DataView *>(t)) t->setData(ma, nix::NDSize(N, 0)); else t->setData(ma);
 }
 template<typename T, size_t N> std::vector<std::string> readMA(const nix::DataSet *s) {
     boost::multi_array<T, N> ma;
